@@ -3,7 +3,7 @@ import re
 from fractions import Fraction
 
 EFFORT_MULT = {"d": 8, "w": 40, "h": 1, "m": Fraction(1, 60), "y": 2080, "min": Fraction(1, 60)}
-GAP_SECONDS = {"min": 60, "h": 3600, "d": 86400, "w": 7 * 86400}
+GAP_SECONDS = {"min": 60, "h": 3600, "d": 86400, "w": 7 * 86400, "m": 30 * 86400, "y": 365 * 86400}
 
 
 def effort_hours(e):
@@ -17,7 +17,7 @@ def gap_seconds(g):
     """calendar seconds of a gap duration string like '3h', '20min', '1d'"""
     if not g:
         return 0
-    m = re.match(r"(\d+(?:\.\d+)?)(min|h|d|w)$", g)
+    m = re.match(r"(\d+(?:\.\d+)?)(min|h|d|w|m|y)$", g)
     return int(Fraction(m.group(1)) * GAP_SECONDS[m.group(2)])
 
 
